@@ -22,6 +22,7 @@ type FuncResult struct {
 	OutOfSub  string // reason, if the function is outside the supported subset
 	Used      []string
 	Uncon     []string
+	Cross     []string
 	Trusted   bool
 	Pos       token.Position
 	Selected  []*Oblig
@@ -42,7 +43,7 @@ func (e *Engine) genVC(fn *ssa.Function, con *Contract, prop string) (res *FuncR
 		vals: map[ssa.Value]SVal{}, R: map[*ssa.BasicBlock]string{}, memOut: map[*ssa.BasicBlock]*Mem{},
 		keySort: map[string]Sort{}, keyType: map[string]types.Type{}, declared: map[string]bool{}, ord: map[string]int{},
 		params: map[string]SVal{}, mem0: &Mem{m: map[string]string{}}, debug: map[string][]debugBinding{},
-		lets: map[string]SVal{}, usedCon: map[string]bool{}, uncontracted: map[string]bool{}, assertDone: map[string]bool{},
+		lets: map[string]SVal{}, usedCon: map[string]bool{}, uncontracted: map[string]bool{}, assertDone: map[string]bool{}, crossAssumed: map[string]bool{},
 	}
 	defer func() {
 		if r := recover(); r != nil {
@@ -76,6 +77,9 @@ func (e *Engine) genVC(fn *ssa.Function, con *Contract, prop string) (res *FuncR
 	}
 	for k := range vc.uncontracted {
 		res.Uncon = append(res.Uncon, k)
+	}
+	for k := range vc.crossAssumed {
+		res.Cross = append(res.Cross, k)
 	}
 	return res
 }
